@@ -9,7 +9,7 @@ modes: dbg  = dev profile (overflow checks, debug assertions, std ub_checks), ho
 """
 
 # (mode, scale)
-NATIVE_Q = [("dbg", 1.0)]
+NATIVE_Q = [("dbg", 1.0), ("rel", 1.0)]
 NATIVE_QR = [("dbg", 1.0), ("rel", 1.0)]
 NATIVE_T = [("dbg", 1.0), ("rel", 1.0)]
 
